@@ -20,10 +20,11 @@ IsEvent(e) == l <= Len(Rec) /\ Rec[l].e = e /\ l' = l + 1
 Fresh(c) ==
   /\ cls' = c
   /\ pc' = "idle" /\ target' = "none" /\ exit' = -1 /\ located' = FALSE /\ wasm' = "none" /\ lsp' = "none"
+  /\ eff' = "?" /\ decoy' = "none"
   /\ UNCHANGED <<hasBase, viaConfig, targetExisted>>
 
 TraceInit ==
-  /\ cls \in Classes /\ hasBase = FALSE /\ viaConfig = FALSE /\ targetExisted = FALSE
+  /\ cls \in Classes /\ hasBase = FALSE /\ viaConfig = "options" /\ targetExisted = FALSE /\ eff = "?" /\ decoy = "none"
   /\ pc = "idle" /\ target = "none" /\ exit = -1 /\ located = FALSE /\ wasm = "none" /\ lsp = "none"
   /\ l = 1 /\ TLCSet(1, 1)
 
@@ -36,6 +37,7 @@ TraceSrc ==
 CliRun(r) ==
   /\ pc \in {"idle", "exited"}
   /\ hasBase' = r.base /\ viaConfig' = r.config /\ targetExisted' = r.existed
+  /\ eff' = "T" /\ decoy' = (IF r.config = "both" /\ r.existed THEN "old" ELSE "none")     \* options win: the decoy stays as it was
   /\ LET fails == cls # "ok" IN
      /\ exit' = (IF fails THEN 1 ELSE 0)
      /\ located' = fails
@@ -48,19 +50,20 @@ TraceCli ==
   /\ CliRun(Rec[l])
   /\ exit' = Rec[l].exit
   /\ (target' = "new") = Rec[l].changed
+  /\ (decoy' = "new") = Rec[l].decoy_changed
   /\ (exit' # 0) => located' = Rec[l].located
 
 TraceWasm ==
   /\ IsEvent("wasm")
   /\ wasm' = (IF cls = "ok" THEN "ok" ELSE "error")
   /\ (wasm' = "ok") = Rec[l].ok
-  /\ UNCHANGED <<cls, hasBase, viaConfig, targetExisted, pc, target, exit, located, lsp>>
+  /\ UNCHANGED <<cls, hasBase, viaConfig, targetExisted, eff, decoy, pc, target, exit, located, lsp>>
 
 TraceLsp ==
   /\ IsEvent("lsp")
   /\ lsp' = (IF cls = "ok" THEN "clean" ELSE "diagnostics")
   /\ (lsp' = "diagnostics") = Rec[l].diagnostics
-  /\ UNCHANGED <<cls, hasBase, viaConfig, targetExisted, pc, target, exit, located, wasm>>
+  /\ UNCHANGED <<cls, hasBase, viaConfig, targetExisted, eff, decoy, pc, target, exit, located, wasm>>
 
 TraceNext == TraceSrc \/ TraceCli \/ TraceWasm \/ TraceLsp
 TraceSpec == TraceInit /\ [][TraceNext]_tvars
@@ -79,6 +82,7 @@ CliExplained(c, o) ==
   LET fails == c # "ok" IN
   /\ o.exit = (IF fails THEN 1 ELSE 0)
   /\ o.changed = ~fails                 \* the target is new exactly on success, untouched otherwise
+  /\ ~o.decoy_changed                   \* a target named only by the configuration file, overridden by an option, is never touched
   /\ fails => o.located
 
 Explains(c, r) ==
@@ -89,7 +93,7 @@ Explains(c, r) ==
 
 ObsInit ==
   /\ l \in 1..Len(ObsRec)
-  /\ cls \in Classes /\ hasBase = FALSE /\ viaConfig = FALSE /\ targetExisted = FALSE
+  /\ cls \in Classes /\ hasBase = FALSE /\ viaConfig = "options" /\ targetExisted = FALSE /\ eff = "?" /\ decoy = "none"
   /\ pc = "idle" /\ target = "none" /\ exit = -1 /\ located = FALSE /\ wasm = "none" /\ lsp = "none"
 ObsNext == UNCHANGED tvars
 
